@@ -44,8 +44,10 @@ func sameOrigin(a, b *url.URL) bool {
 	if bPort == "" {
 		bPort = defaultPort(b.Scheme)
 	}
-	return strings.EqualFold(a.Scheme, b.Scheme) &&
-		strings.EqualFold(a.Hostname(), b.Hostname()) &&
+	// ASCII case only, as the URL key folds it: Unicode folding takes two
+	// different hosts ("kelvin" with the Kelvin sign, a final sigma) for one.
+	return lowerASCII(a.Scheme) == lowerASCII(b.Scheme) &&
+		lowerASCII(a.Hostname()) == lowerASCII(b.Hostname()) &&
 		aPort == bPort
 }
 
